@@ -36,6 +36,7 @@ def concretize(case, variant=0, reads="all"):
     RL = _reads(names, variant)
     R = RL if reads == "all" else ""
     templates, data = {}, {}
+    nleaf = [0]
     named = []          # step index of the partial that was named after the second variable (C19)
 
     def build(i):
@@ -56,7 +57,14 @@ def concretize(case, variant=0, reads="all"):
                 i += 1
             elif op in ("incleaf", "renderleaf"):
                 templates["leaf"] = RL
-                out.append('{% include "leaf" %}' if op == "incleaf" else '{% render "leaf" %}')
+                nleaf[0] += 1
+                if op == "incleaf" and reads == "leaf" and variant % 2 == 1 and nleaf[0] > 1:
+                    # C19: from its second use on the leaf is reached THROUGH another shared partial (include is transparent for scope):
+                    # an analysis that remembers partials it has seen must remember them together with what they load
+                    templates["page"] = '{% include "leaf" %}'
+                    out.append('{% include "page" %}')
+                else:
+                    out.append('{% include "leaf" %}' if op == "incleaf" else '{% render "leaf" %}')
                 i += 1
             elif op == "capture":
                 out.append(f"{{% capture {n} %}}{v}{{% endcapture %}}" + R)
@@ -161,7 +169,37 @@ def observe(text):
     return obs
 
 
-def judge(case, outcome):
+_QUOTED = re.compile(r"'[^']*'")
+_REFS: dict = {}
+
+
+def debug_refs(names):
+    """What an environment with DebugUndefined prints for a MISSING name where no caller binds anything: at the top level, inside a rendered
+    partial, inside a macro body (unbound name / parameter called without a value).  The wording is a diagnostic no statement fixes; only that
+    it does not depend on the caller does (C15).  Quoted words (names) are blanked before comparing."""
+    refs = {}
+    exprs = {n: n for n in names}
+    exprs.update({"fl": "forloop.length", "pl": "forloop.parentloop.length"})
+    for n, x in exprs.items():
+        if n in _REFS:
+            refs[n] = _REFS[n]
+            continue
+        env = harness.make_env(templates={"r_": "{{ " + x + " }}"}, undefined="DebugUndefined")
+        texts = set()
+        srcs = ["{{ " + x + " }}", "{% render 'r_' %}", "{% include 'r_' %}", "{% macro m_ %}{{ " + x + " }}{% endmacro %}{% call m_ %}"]
+        if n == x:
+            srcs.append("{% macro m_ " + n + " %}{{ " + n + " }}{% endmacro %}{% call m_ %}")
+        if n == "pl":
+            srcs += ["{% for i_ in (1..1) %}" + y + "{% endfor %}" for y in srcs[:3]]      # a loop without a parent loop
+        for src in srcs:
+            o = harness.run(env, src, {}, "sync")
+            if "out" in o:
+                texts.add(_QUOTED.sub("''", o["out"]))
+        refs[n] = _REFS[n] = texts
+    return refs
+
+
+def judge(case, outcome, refs=None):
     """-> None or (step index, message)"""
     if case["status"] != "ok":
         if outcome.get("err") != case["status"]:
@@ -182,6 +220,8 @@ def judge(case, outcome):
         for n, (v, layer) in e[1].items():
             if layer == "outerargs":
                 continue      # arguments of an enclosing render seen from a nested render: not fixed by the statements (DESIGN §6)
+            if refs is not None and v == "" and n in refs and _QUOTED.sub("''", o[1].get(n) or "") in refs[n]:
+                continue      # DebugUndefined: the diagnostic for a missing name, the same one a caller without any binding gets
             if o[1].get(n) != v:
                 return e[2], f"step {e[2]} ({case['prog'][e[2]]['op']}): {n} reads {o[1].get(n)!r}, specification says {v!r} (layer {layer})"
     return None
@@ -217,7 +257,10 @@ def replay_one(job):
         env = harness.make_env(loader=CachingDictLoader(dict(templates, main_=src)), globals=eglob)
         env.get_template("main_", globals={n: "stale:" + n for n in names})
     else:
-        env = harness.make_env(templates=templates, globals=eglob)
+        env = harness.make_env(templates=templates, globals=eglob, **({"undefined": "DebugUndefined"} if variant % 3 == 2 else {}))
+    # every third program (not through the caching loader): missing names print DebugUndefined's diagnostic instead of nothing - what a
+    # partial prints for a name it does not have must not depend on whether the caller has it
+    refs = debug_refs(sorted(case["prog"][0]["reads"])) if (variant % 3 == 2 and not via_loader) else None
     res = []
     for how in ("sync", "async"):
         try:
@@ -229,7 +272,7 @@ def replay_one(job):
             res.append((how, (0, "parse failed: " + repr(e)[:200])))
             continue
         o = harness.render(t, data, how)
-        res.append((how, judge(case, o)))
+        res.append((how, judge(case, o, refs)))
     return src, templates, res
 
 
